@@ -193,6 +193,53 @@ def run(ctx, use_model=True):
                             fails.append(Failure("corr", None, "fault injection: serialize(path) no longer writes through os.fdopen/shutil.move as "
                                                  "modelled; no fault point can be exercised", {"name": name, "format": fmt}))
                             return fails
+                        # the serializer itself fails (before, or in the middle of, writing): the named file is as it was
+                        for trig in (("json", {"allow_nan": False}, "nan"), ("xml", {}, "ctrl"), ("rdf", {"rdf_format": "no-such-syntax"}, None)):
+                            if trig[0] != fmt:
+                                continue
+                            bad = ProvDocument()
+                            bad.add_namespace("ex", "http://example.org/")
+                            bad.update(doc)
+                            if trig[2] == "nan":
+                                bad.entity("ex:not-a-number", {"ex:v": float("nan")})
+                            elif trig[2] == "ctrl":
+                                bad.entity("ex:control", {"ex:v": "bell \x07 and nul \x00"})
+                            for d_ in (workdir, tmpdir):
+                                shutil.rmtree(d_, ignore_errors=True)
+                                os.makedirs(d_)
+                            os.makedirs(os.path.join(workdir, "sub", "dir"), exist_ok=True)
+                            if present:
+                                open(os.path.join(workdir, name), "wb").write(OLD)
+                            before3 = snapshot(workdir)
+                            cwd = os.getcwd()
+                            real_tempdir = tempfile.tempdir
+                            exc3 = None
+                            try:
+                                os.chdir(workdir)
+                                tempfile.tempdir = tmpdir
+                                try:
+                                    bad.serialize(name, format=fmt, **trig[1])
+                                except Exception as e:  # noqa
+                                    exc3 = e
+                            finally:
+                                tempfile.tempdir = real_tempdir
+                                os.chdir(cwd)
+                            if exc3 is None:
+                                ctx.count("serializer-did-not-fail:" + fmt)
+                                continue
+                            after3 = snapshot(workdir)
+                            left3 = sorted(os.listdir(tmpdir))
+                            ctx.evaluations += 1
+                            ctx.count("serializer-raises:" + fmt)
+                            case3 = {"name": name, "format": fmt, "present": present, "serializer_fails": trig[2] or "rdf_format"}
+                            ctx.nontrivial(case3)
+                            key3 = os.path.normpath(name)
+                            if after3.get(key3) != before3.get(key3):
+                                got3 = after3.get(key3)
+                                fails.append(Failure("oracle", None, "the serializer raised %s, yet the destination is neither its previous content nor "
+                                                     "absent (%s)" % (type(exc3).__name__, "absent" if got3 is None else "%d bytes" % len(got3)), case3))
+                            if left3:
+                                fails.append(Failure("oracle", None, "temporary file left behind after a serializer failure: %r" % (left3,), case3))
                         if not present:
                             # history: the same document saved to the same name again after somebody else has replaced (or
                             # removed) the file: every call writes the complete serialisation
@@ -325,6 +372,38 @@ def replay(ctx, case):
     fails = []
     try:
         workdir, tmpdir = os.path.join(base, "work"), os.path.join(base, "tmp")
+        if "serializer_fails" in case:
+            bad = ProvDocument()
+            bad.add_namespace("ex", "http://example.org/")
+            bad.update(doc)
+            kw = {}
+            if case["serializer_fails"] == "nan":
+                bad.entity("ex:not-a-number", {"ex:v": float("nan")}); kw = {"allow_nan": False}
+            elif case["serializer_fails"] == "ctrl":
+                bad.entity("ex:control", {"ex:v": "bell \x07 and nul \x00"})
+            else:
+                kw = {"rdf_format": "no-such-syntax"}
+            os.makedirs(os.path.join(workdir, "sub", "dir"), exist_ok=True)
+            os.makedirs(tmpdir, exist_ok=True)
+            if case["present"]:
+                open(os.path.join(workdir, case["name"]), "wb").write(OLD)
+            before3 = snapshot(workdir)
+            cwd = os.getcwd()
+            real_tempdir = tempfile.tempdir
+            try:
+                os.chdir(workdir)
+                tempfile.tempdir = tmpdir
+                try:
+                    bad.serialize(case["name"], format=case["format"], **kw)
+                except Exception:  # noqa
+                    pass
+            finally:
+                tempfile.tempdir = real_tempdir
+                os.chdir(cwd)
+            key3 = os.path.normpath(case["name"])
+            if snapshot(workdir).get(key3) != before3.get(key3):
+                fails.append(Failure("oracle", case.get("signature"), "destination changed although the serializer raised", case))
+            return fails
         if "history" in case:
             os.makedirs(os.path.join(workdir, "sub", "dir"), exist_ok=True)
             os.makedirs(tmpdir, exist_ok=True)
